@@ -47,7 +47,8 @@ Hypothesis Ist_trace : forall gl e st, Ist gl st -> Ist (trace ustate e gl) st.
 Hypothesis Ierr_trace : forall gl e x, Ierr gl x -> Ierr (trace ustate e gl) x.
 Hypothesis H_info : forall gl k, Bal gl (trace ustate (TInfo k) gl).
 Hypothesis H_close : forall gl gl2 n o e, Bal (trace ustate (TStart n o) gl) gl2 -> is_res e -> Bal gl (trace ustate e gl2).
-Hypothesis H_eval : forall gl k, Igl gl -> Igl (log_eval ustate k gl) /\ Bal gl (log_eval ustate k gl).
+Hypothesis H_eval : forall gl n o, cache_get n o (g_cache gl) = None -> Igl gl ->
+  Igl (log_eval ustate (n, o) gl) /\ Bal gl (log_eval ustate (n, o) gl).
 Hypothesis H_user : forall gl u, Igl gl -> Igl (set_user ustate u gl) /\ Bal gl (set_user ustate u gl).
 Hypothesis H_cget : forall gl n k c, Igl gl -> cache_get n k (g_cache gl) = Some c -> Icached gl c.
 Hypothesis H_cput : forall gl n k c, Igl gl -> Icached gl c ->
@@ -351,7 +352,7 @@ Proof.
     + pose proof (H_cget gl _ _ c Hg CG) as HC.
       apply of_cached_post; [|apply H_trace_I; auto|apply H_info].
       destruct c; cbn in *; [eapply Ist_mono|eapply Ierr_mono]; try exact HC; apply Bal_Rgl; apply H_info.
-    + destruct (H_eval gl (r_name r, off st) Hg) as [E1 E2].
+    + destruct (H_eval gl (r_name r) (off st) CG Hg) as [E1 E2].
       assert (Hs1 : Ist (log_eval ustate (r_name r, off st) gl) st)
         by (eapply Ist_mono; [apply Bal_Rgl; exact E2|exact Hs]).
       pose proof (rule_body_post r st _ Hs1 E1) as B.
